@@ -10,9 +10,12 @@ import (
 	"context"
 	"crypto/aes"
 	"crypto/cipher"
+	"crypto/pbkdf2"
+	"crypto/sha256"
 	"crypto/tls"
 	"crypto/x509"
 	"crypto/x509/pkix"
+	"encoding/binary"
 	"errors"
 	"fmt"
 	"math"
@@ -55,6 +58,21 @@ func refMAC(key []byte, input []byte) []byte {
 	out := make([]byte, len(input))
 	cipher.NewCBCEncrypter(blk, make([]byte, aes.BlockSize)).CryptBlocks(out, input)
 	return out[len(out)-aes.BlockSize:]
+}
+
+// refSV is the harness's own statement of the documented secret-value derivation
+// (pkg/drkey DeriveSV): PBKDF2-HMAC-SHA256 (standard library crypto/pbkdf2, not the
+// x/crypto one the code uses), salt "Derive DRKey Key", 1000 iterations, 16 bytes, over
+// len(secret):8 || secret || protocol:2 || begin:4 || end:4. It returns the KDF input too.
+func refSV(ms []byte, proto uint16, beg, end uint32) (in, key []byte) {
+	in = binary.BigEndian.AppendUint64(nil, uint64(len(ms)))
+	in = append(in, ms...)
+	in = binary.BigEndian.AppendUint16(in, proto)
+	in = binary.BigEndian.AppendUint32(in, beg)
+	in = binary.BigEndian.AppendUint32(in, end)
+	key, err := pbkdf2.Key(sha256.New, string(in), []byte("Derive DRKey Key"), 1000, 16)
+	must(err)
+	return in, key
 }
 
 // packed prints a byte string as (DRKey.B len number). Inside a sharing scope
@@ -342,7 +360,8 @@ func main() {
 		"Server.DRKeyLevel1, engine at the source or destination AS (or neither), protocols predefined and " +
 		"niche, request times at/around epoch boundaries, host strings in several spellings, against the " +
 		"documented derivation (reference AES-CBC-MAC in the runner, last cipher block) from the real secret " +
-		"value, for the served keys and for the keys of the real derivers; pairs of hosts (mostly IPv6, differing in " +
+		"value, for the served keys and for the keys of the real derivers; secret values: real DeriveSV for one " +
+		"master secret and two (protocol, epoch) pairs against an independent PBKDF2 over the documented input; pairs of hosts (mostly IPv6, differing in " +
 		"the last 1-4 bytes) under one parent key: equal keys only for the same host address; window: epoch lengths, " +
 		"acceptance windows, times and timestamps placed at every window/epoch/grace boundary +-1ns; " +
 		"non-trivial = a key was served / selected, or refused at a boundary"
@@ -488,9 +507,13 @@ func main() {
 				if d.Key != s.Key {
 					run.Violate(-1, "GetSecretValue differs from DeriveSV", nil)
 				}
+				// the model gets the documented secret value (refSV), not the served one
+				_, rk := refSV(masters[idx], uint16(s.ProtoId), uint32(s.Epoch.NotBefore.Unix()),
+					uint32(s.Epoch.NotAfter.Unix()))
 				svs = append(svs, svEntry{src, s.ProtoId, uint32(s.Epoch.NotBefore.Unix()),
-					uint32(s.Epoch.NotAfter.Unix()), s.Key[:]})
+					uint32(s.Epoch.NotAfter.Unix()), rk})
 			}
+			refSVP, refSVL := svs[len(svs)-2].key, svs[len(svs)-1].key
 			l1buf := make([]byte, 16)
 			specific.VerifSerializeLevel1Input(l1buf, dst)
 			k1P, err := specific.Deriver{}.DeriveLevel1(dst, svP.Key)
@@ -499,9 +522,9 @@ func main() {
 			must(err)
 			// the table given to the model is the documented derivation (refMAC), chained on
 			// reference keys; the real derivers' outputs are only observations
-			refK1 := refMAC(svL.Key[:], l1buf)
-			prfs = append(prfs, prfEntry{svP.Key[:], l1buf, refMAC(svP.Key[:], l1buf)},
-				prfEntry{svL.Key[:], l1buf, refK1})
+			refK1 := refMAC(refSVL, l1buf)
+			prfs = append(prfs, prfEntry{refSVP, l1buf, refMAC(refSVP, l1buf)},
+				prfEntry{refSVL, l1buf, refK1})
 			hostKeys[0] = keyPtr(k1P, nil)
 			var refHas []byte
 			lvl2 := func(kt drkey.KeyType, hs string, parent drkey.Key) (drkey.Key, error) {
@@ -611,6 +634,74 @@ func main() {
 		if panicked {
 			run.Violate(id, "panic: "+msg, desc)
 		}
+	}
+
+	// 3a. secret values: the real DeriveSV for one master secret and two (protocol, epoch)
+	// pairs against the documented derivation; equal secret values only for the same pair
+	nsv := run.Count(150, 20000)
+	for i := 0; i < nsv; i++ {
+		r := rng.Fork(uint64(230000 + i))
+		var ms []byte
+		switch x := r.Intn(12); {
+		case x < 6:
+			ms = r.Bytes(16)
+		case x < 8:
+			ms = r.Bytes(r.Range(1, 40))
+		case x < 9:
+			ms = []byte{}
+		case x < 10: // secrets made of zero bytes / of bytes that look like the trailing fields
+			ms = make([]byte, r.Range(1, 12))
+		default:
+			ms = append(r.Bytes(r.Range(1, 8)), 0, 1, 0, 0, 0, 60, 0, 0, 0, 120)
+		}
+		p1 := uint16(vgen.Pick(r, 0, 1, 1, 2, 7, 256, 257, 65535, r.Intn(65536)))
+		b1 := uint32(vgen.Pick(r, 0, 60, 1700000040, 1<<31, math.MaxUint32-60, r.Intn(1<<31)))
+		e1 := b1 + uint32(vgen.Pick(r, 1, 60, 360, 86400, 259200))
+		p2, b2, e2 := p1, b1, e1
+		switch r.Intn(8) {
+		case 0: // identical
+		case 1, 2: // protocol only
+			p2 = vgen.Pick(r, p1^1, p1^0x100, p1+1, uint16(r.Intn(65536)))
+		case 3:
+			b2 = b1 + uint32(vgen.Pick(r, 1, 256, 60))
+		case 4:
+			e2 = e1 + uint32(vgen.Pick(r, 1, 256, 60))
+		case 5: // shifted by one epoch
+			b2, e2 = e1, e1+(e1-b1)
+		case 6: // begin and end exchanged
+			b2, e2 = e1, b1
+		default: // protocol and epoch bytes exchanged
+			p2, b2 = uint16(b1>>16), uint32(p1)<<16|b1&0xffff
+		}
+		if !run.Want() {
+			run.Skip()
+			continue
+		}
+		type one struct {
+			p    uint16
+			b, e uint32
+		}
+		var outs [2]*drkey.Key
+		var kdfs []prfEntry
+		for j, o := range []one{{p1, b1, e1}, {p2, b2, e2}} {
+			sv, err := drkey.DeriveSV(drkey.Protocol(o.p), drkey.NewEpoch(o.b, o.e), ms)
+			outs[j] = keyPtr(sv.Key, err)
+			if len(ms) > 0 {
+				in, k := refSV(ms, o.p, o.b, o.e)
+				kdfs = append(kdfs, prfEntry{in: in, out: k})
+			}
+		}
+		same := p1 == p2 && b1 == b2 && e1 == e2
+		run.Tally(fmt.Sprintf("sv:len%d-same:%v", len(ms)/8*8, same))
+		desc := map[string]any{"secret": fmt.Sprintf("%x", ms), "p1": p1, "b1": b1, "e1": e1, "p2": p2, "b2": b2,
+			"e2": e2, "sv1": plainKey(outs[0]), "sv2": plainKey(outs[1])}
+		term := share(func() string {
+			tab := vgen.ListOf(kdfs, func(e prfEntry) string { return vgen.Pair(packed(e.in), packed(e.out)) })
+			ep := func(b, e uint32) string { return vgen.Pair(vgen.N(uint64(b)), vgen.N(uint64(e))) }
+			return vgen.App("DRKey.CSV", tab, packed(ms), vgen.N(uint64(p1)), ep(b1, e1), vgen.N(uint64(p2)),
+				ep(b2, e2), keyOpt(outs[0]), keyOpt(outs[1]))
+		})
+		run.Add("sv", term, fmt.Sprint(ms, p1, b1, e1, p2, b2, e2), len(ms) > 0, desc)
 	}
 
 	// 3b. pairs of hosts under one parent key: keys of the real derivers against the
@@ -727,7 +818,7 @@ func main() {
 		6 * time.Minute, time.Hour, 1500 * time.Millisecond, 999 * time.Millisecond, 0}
 	awChoices := []time.Duration{0, 1, 2, time.Second, 5 * time.Second, 5*time.Second + 1,
 		10 * time.Second, 5 * time.Minute, 2999999999, time.Hour, -time.Second}
-	nw := run.Count(800, 100000)
+	nw := run.Count(700, 100000)
 	for i := 0; i < nw; i++ {
 		r := rng.Fork(uint64(300000 + i))
 		ed := vgen.Pick(r, edChoices...)
